@@ -50,10 +50,25 @@ def _plain(x):
 
 def observe(prog, sql):
     ex = prog.execution
-    return {'sql': mask(str(sql)),
-            'exports': [[str(k), mask(str(v))]
-                        for k, v in ex.table_to_export_map.items()],
-            'edges': [[mask(str(a)), mask(str(b))] for a, b in ex.dependency_edges]}
+    o = {'sql': mask(str(sql)),
+         'exports': [[str(k), mask(str(v))]
+                     for k, v in ex.table_to_export_map.items()],
+         'edges': [[mask(str(a)), mask(str(b))] for a, b in ex.dependency_edges]}
+    # measured facts used for labels / exclusion classes only (never compared)
+    try:
+        live = set(ex.table_to_defined_table_map)
+        o['iters'] = sorted(len(set(it['predicates'])) for it in
+                            (ex.iterations or {}).values()
+                            if set(it['predicates']) & live)
+    except Exception:
+        o['iters'] = []
+    return o
+
+
+def probe_state():
+    """Module-level parser state named in the property's anchors (bucket aid only)."""
+    from lv import drive
+    return {'too_much': str(getattr(drive.parse, 'TOO_MUCH', None))}
 
 
 def observe_error(e):
@@ -131,6 +146,12 @@ class Session(object):
         return self.parse.ParseFile(item['text'], import_root=self._root_of(item))['rule']
 
     def step(self, st):
+        o = self._step(st)
+        if isinstance(o, dict):
+            o['state'] = probe_state()
+        return o
+
+    def _step(self, st):
         """-> observation dict, or None for steps that produce no SQL."""
         kind = st[0]
         if kind == 'reset_too_much':
@@ -286,8 +307,14 @@ def first_diff(a, b, ctx=160):
         i, a[lo:i + ctx], b[lo:i + ctx])
 
 
-def statement_multiset(sql):
-    return sorted(x.strip() for x in sql.split(';\n') if x.strip())
+ALLOC_RE = re.compile(r'\bx_\d+\b')
+
+
+def line_multiset(sql):
+    """Lines of the script with allocator numbers blanked, as a sorted list: equal for
+    two scripts that differ only in the order in which statements were emitted (and in
+    the numbering of generated aliases that follows from that order)."""
+    return sorted(ALLOC_RE.sub('x_N', x) for x in sql.split('\n'))
 
 
 def compare(base, other):
@@ -312,8 +339,8 @@ def compare(base, other):
                     'baseline' if be else 'variant', a['err'], a['msg'][:500],
                     'variant' if be else 'baseline')), notes
     if base['sql'] != other['sql']:
-        kind = 'sql_statement_order' if statement_multiset(base['sql']) == \
-            statement_multiset(other['sql']) else 'sql_text'
+        kind = 'statement_order' if line_multiset(base['sql']) == \
+            line_multiset(other['sql']) else 'sql_text'
         return (kind, first_diff(base['sql'], other['sql'])), notes
     bx, ox = base['exports'], other['exports']
     if sorted(bx) != sorted(ox):
